@@ -63,6 +63,15 @@ class _G:
     def op(self):
         return self.draw(st.sampled_from(OPS))
 
+    def nested_pair(self, op, a):
+        """two lambdas with the same argument, names and constants whose NESTED lambda (which uses the outer argument) differs by one operator"""
+        self.n += 1
+        m = 1000 + self.n * 17
+        o1, o2 = self.draw(st.sampled_from([("+", "-"), ("*", "+"), ("-", "*")]))
+        tail = " > 0" if op == "Where" else ""
+        mk = lambda o: f"lambda {a}: (lambda q: q {o} {a})({m}){tail}"  # noqa: E731
+        return mk(o1), mk(o2)
+
     def twin(self, op, lam_text, a):
         """a lambda with the same argument, names and constants as lam_text (`a * k + m`) but another meaning (`a * m + k`)"""
         import re
@@ -100,7 +109,7 @@ def _relayout(draw, line):
 @st.composite
 def _unit(draw):
     g = _G(draw)
-    pick = draw(st.integers(0, 53))
+    pick = draw(st.integers(0, 58))
     sup = True
     pre = ""
     label = ""
@@ -336,6 +345,8 @@ def _unit(draw):
         l1, l2 = g.lam(o, a1)[0], g.lam(o, a2)[0]
         if a1 == a2 and draw(st.booleans()):
             l2 = g.twin(o, l1, a1) or l2
+        elif a1 == a2 and draw(st.booleans()):
+            l1, l2 = g.nested_pair(o, a1)
         body = f"FLAG = {flag}\nq = ds.{o}(({l1}) if FLAG else ({l2}))" if pick == 50 else f"FLAG = {flag}\nq = ds.{o}({l1} if FLAG else {l2})"
         sup = False
         label = "lambda-in-arm-of-conditional-expression"
@@ -350,6 +361,33 @@ def _unit(draw):
         body = "def ident(z):\n    return z\n" + (f"q = ds.{o1}(ident({l1})).{o2}({l2})" if pick == 52 else f"q = ds.{o1}({l1}).{o2}(ident({l2}))")
         sup = False
         label = "lambda-through-helper-call-on-the-line"
+    elif pick in (57, 58):
+        # mis-attributable lambdas that differ only inside a nested lambda which uses the outer argument
+        o = g.op()
+        a = draw(st.sampled_from(ARGS))
+        l1, l2 = g.nested_pair(o, a)
+        flag = draw(st.booleans())
+        if pick == 57:
+            body = f"FLAG = {flag}\nq = ds.{o}(({l1}) if FLAG else ({l2}))"
+        else:
+            body = f"def ident(z):\n    return z\nq = ds.{o}(ident({l1})).{o}({l2})"
+        sup = False
+        label = "mis-attributable-lambdas-differing-in-a-nested-lambda"
+    elif pick in (54, 55, 56):
+        # mis-attributable lambdas that use a variable of the enclosing function (their code depends on where it is compiled)
+        o = g.op()
+        a = draw(st.sampled_from(ARGS))
+        g.n += 1
+        m = 1000 + g.n * 17
+        cmp_ = " > 0" if o == "Where" else ""
+        l1 = f"lambda {a}: {a} * cut + {m}{cmp_}"
+        l2 = draw(st.sampled_from([f"lambda {a}: {a} * {m} + cut{cmp_}", f"lambda {a}: {a} * cut - {m}{cmp_}", f"lambda {a}: ({a} * cut + {m}) * 2{cmp_}"]))
+        flag = draw(st.booleans())
+        kwname = {"Select": "f", "SelectMany": "func", "Where": "filter"}[o]
+        call = {54: f"ds.{o}(({l1}) if FLAG else ({l2}))", 55: f"ds.{o}({l1}).{o}({kwname}={l2})", 56: f"ds.{o}(ident({l1})).{o}({l2})"}[pick]
+        body = f"FLAG = {flag}\ndef ident(z):\n    return z\ndef outer(ds):\n    cut = {draw(st.integers(2, 5))}\n    return {call}\nq = outer(ds)"
+        sup = False
+        label = "mis-attributable-lambdas-with-enclosing-function-variable"
     elif pick >= 42:
         # free-form layout: a chain of 2-3 calls, then line breaks (and comments) at random places where python allows them
         ncalls = draw(st.integers(2, 3))
